@@ -1,5 +1,5 @@
 //! Calls: configured functions, whitelisted integer / Option / range methods.
-use crate::expr::app;
+use crate::expr::{app, strip_parens};
 use crate::tr::*;
 use crate::types::*;
 use syn::*;
@@ -14,18 +14,41 @@ impl<'a> Tr<'a> {
         Ok(Val { s, ty })
     }
 
+    /// a method of the same impl header as the function being translated: its abstracted `R::ITEM` parameters are the
+    /// caller's own parameters of the same names
+    pub fn inherited_assoc(&self, f: &FnInfo, env: &Env) -> Option<Vec<String>> {
+        if f.assoc_params.is_empty() || !f.generic_names.is_empty() || f.self_ty.is_none() || f.self_ty != self.self_ty {
+            return None;
+        }
+        let me = self.t.fns.iter().find(|g| g.coq == self.fn_coq)?;
+        if me.impl_args != f.impl_args {
+            return None;
+        }
+        let mut out = vec![];
+        for (k, t) in f.assoc_params.iter() {
+            match env.get(k) {
+                Some(v) if v.ty == *t => out.push(v.coq.clone()),
+                _ => return None,
+            }
+        }
+        Some(out)
+    }
+
     pub fn apply_fn_raw(&mut self, f: &FnInfo, cg: &[Val], recv: Option<&Val>, args: &[&Expr], env: &Env, at: &Expr) -> R<(String, Ty)> {
         if f.has_mut_params() || f.fuel {
             return Err(unsupported(at, &format!("call of `{}` (`&mut` parameters / fuel) in a position where its effects cannot be sequenced", f.key)));
         }
-        if !f.assoc_params.is_empty() && self.turbofish_types.is_none() {
+        let inherited = self.inherited_assoc(f, env);
+        if !f.assoc_params.is_empty() && self.turbofish_types.is_none() && inherited.is_none() {
             return Err(unsupported(at, &format!("call of `{}`, whose generic parameters' associated constants are abstracted as parameters", f.key)));
         }
         if cg.len() != f.const_generics.len() {
             return Err(unsupported(at, &format!("call of `{}` needs {} const generic argument(s) written with a turbofish", f.key, f.const_generics.len())));
         }
         let mut a: Vec<String> = self.mvar_args(&f.mvars, env, at)?;
-        if !f.assoc_params.is_empty() {
+        if let (Some(inh), true) = (&inherited, self.turbofish_types.is_none()) {
+            a.extend(inh.iter().cloned());
+        } else if !f.assoc_params.is_empty() {
             // `callee::<A, B>(..)`: the callee's `R::CONST` parameters are `A::CONST` in the caller
             let targs = self.turbofish_types.take().unwrap();
             if targs.len() != f.generic_names.len() {
@@ -111,19 +134,56 @@ impl<'a> Tr<'a> {
         Ok(out)
     }
 
+    /// `x.m()` resolved to a configured TRAIT method while the type has an inherent method `m` (which Rust prefers)
+    pub fn check_not_shadowed(&self, f: &FnInfo, at: &Expr) -> R<()> {
+        if f.trait_name.is_none() {
+            return Ok(());
+        }
+        let base = f.self_ty.as_deref().unwrap_or("").rsplit('.').next().unwrap().split('<').next().unwrap().to_string();
+        let inherent_configured = self.t.fns.iter().any(|g| g.self_ty == f.self_ty && g.name == f.name && g.trait_name.is_none());
+        if inherent_configured {
+            return Ok(());
+        }
+        for d in self.t.file_defs.values() {
+            if d.inherent.contains(&(base.clone(), f.name.clone())) {
+                return Err(unsupported(at, &format!("method `{}` resolves to the configured trait method `{}`, but `{}` also has an inherent method `{}` (which Rust prefers) that is not configured", f.name, f.key, base, f.name)));
+            }
+        }
+        Ok(())
+    }
+
     pub fn find_fns(&self, self_ty: Option<&str>, name: &str) -> Vec<FnInfo> {
         self.t.fns.iter().filter(|f| f.self_ty.as_deref() == self_ty && f.name == name).cloned().collect()
     }
 
     pub fn call(&mut self, c: &ExprCall, env: &Env, hint: Option<&Ty>) -> R<Val> {
         let at = &Expr::Call(c.clone());
-        let p = match &*c.func {
+        let p = match strip_parens(&c.func) {
             Expr::Path(p) if p.qself.is_none() => p,
             _ => return Err(unsupported(at, "call of something that is not a path")),
         };
         let segs: Vec<String> = p.path.segments.iter().map(|s| s.ident.to_string()).collect();
         let last = p.path.segments.last().unwrap();
         let args: Vec<&Expr> = c.args.iter().collect();
+        if segs.len() >= 2 && self.generic_tys.contains(&segs[0]) {
+            // an associated function of a generic type parameter: a function parameter of the translated definition
+            let key = generic_item_key(&p.path);
+            return match env.get(&key) {
+                Some(v) => match &v.ty {
+                    Ty::Fn(ptys, rty) if ptys.len() == args.len() => {
+                        let mut a = vec![];
+                        for (x, pt) in args.iter().zip(ptys.iter()) {
+                            let av = self.pure(x, env, Some(pt))?;
+                            join(&av.ty, pt).map_err(|m| unsupported(at, &m))?;
+                            a.push(av.s);
+                        }
+                        Ok(Val { s: app(&v.coq, &a), ty: (**rty).clone() })
+                    }
+                    _ => Err(unsupported(at, &format!("call of `{}`, whose `assoc` type is not a function of {} arguments", key, args.len()))),
+                },
+                None => Err(unsupported(at, &format!("associated function `{}` of a generic parameter (give `assoc <name> fn(..)->..`)", key))),
+            };
+        }
         if segs.len() == 1 {
             let n = segs[0].as_str();
             if (n == "Ok" || n == "Err") && args.len() == 1 {
@@ -159,10 +219,14 @@ impl<'a> Tr<'a> {
                 }
                 return Err(unsupported(at, &format!("call of local `{}` which is not a closure", n)));
             }
-            let fs = self.find_fns(None, n);
+            let local_def = self.t.file_defs.get(&self.cur_file).map(|d| d.fns.contains(n)).unwrap_or(false);
+            let fs: Vec<FnInfo> = self.find_fns(None, n).into_iter().filter(|f| !local_def || f.file == self.cur_file).collect();
             if fs.len() == 1 {
                 let cg = self.turbofish_consts(last, env, Some(&fs[0]))?;
                 return self.apply_fn(&fs[0], &cg, None, &args, env, at);
+            }
+            if local_def {
+                return Err(unsupported(at, &format!("call of `{}`: this file defines its own `{}`, which is not configured (a function of that name configured from another file is a different function)", n, n)));
             }
             if (n == "min" || n == "max") && args.len() == 2 {
                 return self.minmax(n, args[0], args[1], env, hint, at);
@@ -207,6 +271,21 @@ impl<'a> Tr<'a> {
                     Ty::Bool => Ok(Val { s: format!("(if {} then 1 else 0)", v.s), ty: Ty::int(t) }),
                     _ => Err(unsupported(at, &format!("`{}::from` on {}", tname, v.ty.show()))),
                 };
+            }
+            if fname == "try_from" && args.len() == 1 {
+                let v = self.pure(args[0], env, None)?;
+                return match v.ty {
+                    Ty::Int(Some(_)) => Ok(Val { s: format!("(Casts.try_from_range {} {} {})", lit(t.min_val()), lit(t.max_val()), v.s), ty: Ty::Result(Box::new(Ty::int(t)), Box::new(Ty::Unit)) }),
+                    _ => Err(unsupported(at, &format!("`{}::try_from` on {}", tname, v.ty.show()))),
+                };
+            }
+            if (fname == "from_le_bytes" || fname == "from_be_bytes") && args.len() == 1 && !t.signed() {
+                let n = (t.bits() / 8) as usize;
+                let want = Ty::Tuple(vec![Ty::int(IntTy::U8); n]);
+                let v = self.pure(args[0], env, Some(&want))?;
+                join(&v.ty, &want).map_err(|m| unsupported(at, &m))?;
+                let names: Vec<String> = (0..n).map(|i| format!("b{}_", i)).collect();
+                return Ok(Val { s: format!("(let '({}) := {} in Casts.{} [{}])", names.join(", "), v.s, fname, names.join("; ")), ty: Ty::int(t) });
             }
             return Err(unsupported(at, &format!("`{}::{}`", tname, fname)));
         }
@@ -312,11 +391,40 @@ impl<'a> Tr<'a> {
         let at = &Expr::MethodCall(m.clone());
         let name = m.method.to_string();
         let args: Vec<&Expr> = m.args.iter().collect();
+        if name == "unwrap" && args.is_empty() {
+            if let Expr::MethodCall(inner) = &*m.receiver {
+                if inner.method == "try_into" && inner.args.is_empty() {
+                    // `slice.try_into().unwrap()`: the array (N-tuple) of a slice; N must be known from the context
+                    let sv = self.pure(&inner.receiver, env, None)?;
+                    let elem = match &sv.ty {
+                        Ty::Slice(t) if t.is_int() => (**t).clone(),
+                        t => return Err(unsupported(at, &format!("`try_into().unwrap()` on {} (only slice of integers -> array)", t.show()))),
+                    };
+                    let n = match hint {
+                        Some(Ty::Tuple(ts)) if (2..=4).contains(&ts.len()) && ts.iter().all(|t| join(t, &elem).is_ok()) => ts.len(),
+                        _ => return Err(unsupported(at, "`slice.try_into().unwrap()` whose array length (2..4) is not known from an annotation or from its use")),
+                    };
+                    return Ok(Val { s: format!("(Casts.array{}_of_slice {})", n, sv.s), ty: Ty::Tuple(vec![elem; n]) });
+                }
+            }
+        }
         let recv = self.pure(&m.receiver, env, None)?;
         match recv.ty.clone() {
             Ty::Int(t) => self.int_method(&name, recv, t, m, &args, env, hint, at),
             Ty::Adt(n) => {
                 let fs = self.find_fns(Some(&n), &name);
+                // a value of an instantiated type parameter: only the methods of the parameter's trait bounds
+                let fs: Vec<FnInfo> = match self.inst_traits.get(&n) {
+                    Some(bounds) => fs.into_iter().filter(|f| f.trait_name.as_deref().map(|t| bounds.contains(t.split('<').next().unwrap())).unwrap_or(false)).collect(),
+                    None => fs,
+                };
+                let via_bound = self.inst_traits.contains_key(&n);
+                // a concrete receiver: Rust prefers the inherent method over trait methods of the same name
+                let fs: Vec<FnInfo> = if !via_bound && fs.len() > 1 && fs.iter().filter(|f| f.trait_name.is_none()).count() == 1 {
+                    fs.into_iter().filter(|f| f.trait_name.is_none()).collect()
+                } else {
+                    fs
+                };
                 let fs: Vec<FnInfo> = if fs.len() > 1 {
                     let a0 = if args.is_empty() { None } else { self.pure(args[0], env, None).ok() };
                     fs.into_iter()
@@ -332,9 +440,20 @@ impl<'a> Tr<'a> {
                     if fs[0].self_kind == SelfKind::None {
                         return Err(unsupported(at, "method call of an associated function without self"));
                     }
+                    if !via_bound {
+                        self.check_not_shadowed(&fs[0], at)?;
+                    }
                     return self.apply_fn(&fs[0], &[], Some(&recv), &args, env, at);
                 }
                 if name == "clone" && args.is_empty() {
+                    let ok = match self.t.adts.get(&n) {
+                        Some(Adt::Struct(s)) => s.module.contains("clone:"),
+                        Some(Adt::Enum(e)) => e.module.contains("clone:") || e.name == "Ordering",
+                        None => false,
+                    };
+                    if !ok {
+                        return Err(unsupported(at, &format!("`clone()` on `{}`, which does not derive Clone / Copy (a hand-written clone is not translated)", n)));
+                    }
                     return Ok(recv);
                 }
                 if name == "into" && args.is_empty() {
@@ -347,8 +466,55 @@ impl<'a> Tr<'a> {
                 }
                 Err(unsupported(at, &format!("method `{}::{}`: {} (add it to functions.txt before its caller)", n, name, if fs.is_empty() { "not a configured function" } else { "ambiguous" })))
             }
+            Ty::Param(g) if self.generic_tys.contains(&g) => {
+                // a method of a generic type parameter's bound: a function parameter of the translated definition
+                let key = format!("{}::{}", g, name);
+                match env.get(&key) {
+                    Some(v) => match &v.ty {
+                        Ty::Fn(ptys, rty) if ptys.len() == args.len() + 1 => {
+                            join(&recv.ty, &ptys[0]).map_err(|m| unsupported(at, &m))?;
+                            let mut a = vec![recv.s.clone()];
+                            for (x, pt) in args.iter().zip(ptys.iter().skip(1)) {
+                                let av = self.pure(x, env, Some(pt))?;
+                                join(&av.ty, pt).map_err(|m| unsupported(at, &m))?;
+                                a.push(av.s);
+                            }
+                            Ok(Val { s: app(&v.coq, &a), ty: (**rty).clone() })
+                        }
+                        _ => Err(unsupported(at, &format!("method `{}` of the generic parameter `{}`: its `assoc` type is not a function of {} arguments", name, g, args.len() + 1))),
+                    },
+                    None => Err(unsupported(at, &format!("method `{}` on a value of the generic type `{}` (give `assoc {} fn({},..)->..`)", name, g, name, g))),
+                }
+            }
             Ty::Option(inner) => self.option_method(&name, recv, &inner, &args, env, hint, at),
             Ty::Slice(elem) => match (name.as_str(), args.len()) {
+                ("get", 1) if matches!(strip_parens(args[0]), Expr::Range(_)) => {
+                    let r = match strip_parens(args[0]) {
+                        Expr::Range(r) => r,
+                        _ => unreachable!(),
+                    };
+                    if !matches!(r.limits, RangeLimits::HalfOpen(_)) {
+                        return Err(unsupported(at, "slice.get with an inclusive range"));
+                    }
+                    let us = Ty::int(IntTy::Usize);
+                    let a = match &r.start {
+                        Some(a) => {
+                            let v = self.pure(a, env, Some(&us))?;
+                            join(&v.ty, &us).map_err(|m| unsupported(at, &m))?;
+                            v.s
+                        }
+                        None => "0".to_string(),
+                    };
+                    let s = match &r.end {
+                        Some(b) => {
+                            let v = self.pure(b, env, Some(&us))?;
+                            join(&v.ty, &us).map_err(|m| unsupported(at, &m))?;
+                            format!("(Casts.slice_range {} {} {})", recv.s, a, v.s)
+                        }
+                        None => format!("(Casts.slice_from {} {})", recv.s, a),
+                    };
+                    Ok(Val { s, ty: Ty::Option(Box::new(recv.ty.clone())) })
+                }
                 ("get", 1) => {
                     let i = self.pure(args[0], env, Some(&Ty::int(IntTy::Usize)))?;
                     if !i.ty.is_int() {
@@ -363,11 +529,17 @@ impl<'a> Tr<'a> {
             Ty::Extern(n) => {
                 let e = self.t.externs.get(&n).cloned().ok_or_else(|| unsupported(at, "unknown extern type"))?;
                 let ty_of = |t: &Ty| if *t == Ty::Extern("Self".into()) { Ty::Extern(n.clone()) } else { t.clone() };
+                let want: Vec<Ty> = e.margs.get(&name).cloned().unwrap_or_default();
                 match e.methods.iter().find(|m| m.0 == name) {
-                    Some((_, ty, f)) if args.is_empty() => {
+                    Some((_, ty, f)) if args.len() == want.len() => {
                         let ty = &ty_of(ty);
                         let mut a = self.extern_row(&e, env, at)?;
                         a.push(recv.s.clone());
+                        for (x, t) in args.iter().zip(want.iter()) {
+                            let v = self.pure(x, env, Some(t))?;
+                            join(&v.ty, t).map_err(|m| unsupported(at, &m))?;
+                            a.push(v.s);
+                        }
                         Ok(Val { s: app(f, &a), ty: ty.clone() })
                     }
                     _ => Err(unsupported(at, &format!("method `{}` on extern type `{}` (not listed in its `extern` line)", name, n))),
@@ -434,6 +606,16 @@ impl<'a> Tr<'a> {
                 let a = arg(self, 0, &same)?;
                 let ty = join(&same, &a.ty).map_err(|e| unsupported(at, &e))?;
                 Ok(Val { s: format!("(Z.{} {} {})", name, recv.s, a.s), ty })
+            }
+            ("to_le_bytes", 0) | ("to_be_bytes", 0) => {
+                let t = need(name)?;
+                if t.signed() || t.bits() < 16 || t.bits() > 32 {
+                    return Err(unsupported(at, &format!("`{}` on {} (only u16 / u32)", name, t.name())));
+                }
+                let n = (t.bits() / 8) as usize;
+                let idx: Vec<usize> = if name == "to_le_bytes" { (0..n).collect() } else { (0..n).rev().collect() };
+                let bytes: Vec<String> = idx.iter().map(|k| format!("Casts.byte_of v_ {}", k)).collect();
+                Ok(Val { s: format!("(let v_ := {} in ({}))", recv.s, bytes.join(", ")), ty: Ty::Tuple(vec![Ty::int(IntTy::U8); n]) })
             }
             ("abs", 0) => {
                 if !need("abs")?.signed() {
@@ -559,6 +741,24 @@ impl<'a> Tr<'a> {
                     _ => Err(unsupported(at, "`.map(Into::into)` to a type that is not an abstract/extern type")),
                 }
             }
+            ("map", 1) if matches!(args[0], Expr::Path(_)) => {
+                // `.map(Type::function)`: the function applied to the payload
+                let fresh = self.fresh("v");
+                let mut env2 = env.clone();
+                env2.push("r2c_map_arg", var(fresh.clone(), inner.clone()));
+                let call: Expr = Expr::Call(ExprCall {
+                    attrs: vec![],
+                    func: Box::new(args[0].clone()),
+                    paren_token: Default::default(),
+                    args: std::iter::once::<Expr>(syn::parse_str("r2c_map_arg").unwrap()).collect(),
+                });
+                let ih = match hint {
+                    Some(Ty::Option(t)) => Some((**t).clone()),
+                    _ => None,
+                };
+                let b = self.pure(&call, &env2, ih.as_ref())?;
+                Ok(Val { s: format!("(match {} with | Some {} => Some {} | None => None end)", recv.s, fresh, b.s), ty: Ty::Option(Box::new(b.ty)) })
+            }
             ("map", 1) => {
                 let ih = match hint {
                     Some(Ty::Option(t)) => Some((**t).clone()),
@@ -592,6 +792,9 @@ impl<'a> Tr<'a> {
             }
             ("filter", 1) => {
                 let (p, b) = self.closure1(args[0], inner, env, Some(&Ty::Bool))?;
+                if p != "_" && !p.chars().all(|c| c.is_alphanumeric() || c == '_' || c == '\'') {
+                    return Err(unsupported(at, "`Option::filter` with a destructuring closure parameter"));
+                }
                 let keep = if p == "_" { recv.s.clone() } else { format!("Some {}", p) };
                 Ok(Val { s: format!("(match {r} with | Some {p} => if {b} then {k} else None | None => None end)", r = recv.s, p = p, b = b.s, k = keep), ty: recv.ty.clone() })
             }
